@@ -631,6 +631,18 @@ def store(I, arr, idx, v, node, env):
         I.event("unsupported", node, "store into array of unknown shape")
         return None
     items = _expand_index(I, arr, idx, node)
+    # x[1:] = x[:-1] on an array of inclusive prefix sums (numpy copies overlapping ranges as if through a temporary):
+    # everything moves one place to the right, entry 0 stays; resetting entry 0 afterwards gives the exclusive prefix sums
+    if (arr.ndim == 1 and len(items) == 1 and isinstance(items[0], SliceV) and const_int(items[0].lo) == 1 and items[0].hi is None and items[0].step is None
+            and isinstance(v, Arr) and v.meta.get("slice1d") is not None and v.meta["slice1d"][0] is None and const_int(v.meta["slice1d"][1]) == -1
+            and isinstance(arr.val, Expr) and isinstance(v.meta["slice1d"][2], Arr) and isinstance(v.meta["slice1d"][2].val, Expr) and v.meta["slice1d"][2].val.eq(arr.val)):
+        cs = _single_atom(arr.val)
+        if cs is not None and cs.kind == "fn" and cs.name == "cumsum":
+            new = arr.copy()
+            new.meta = {k: x for k, x in arr.meta.items() if k not in ("gen", "cumsum_of")}
+            new.meta["roll_of"] = (arr, ONE)  # same state as np.roll(x, 1) before its first entry is reset (entry 0 differs, and is overwritten next)
+            new.val = alg.fn("roll", arr.val, ONE)
+            return new
     ro = arr.meta.get("roll_of")
     if ro is not None and arr.ndim == 1 and len(items) == 1 and isinstance(val_of(v), Expr) and val_of(v).is_zero():
         it = items[0]
@@ -1295,6 +1307,8 @@ def np_asarray(I, args, kwargs, node):
     x = args[0]
     derived = getattr(I, "param_objs", {}).get(id(x)) is x or isinstance(x, SymArr) or (isinstance(x, Arr) and (x.meta.get("param") or x.meta.get("alias_of_param"))) or (
         isinstance(x, Tup) and any(isinstance(i, Expr) and any(a.kind == "sym" and a.meta == "param" for a in i.atoms()) for i in x.items))
+    if isinstance(r, SymArr):
+        return r  # the caller's own array (stores into it are reported as such)
     if isinstance(r, Arr) and derived:
         if r is x:
             r = r.copy()
@@ -1554,6 +1568,18 @@ def np_where(I, args, kwargs, node):
     return val_of(pick)
 
 
+def np_select(I, args, kwargs, node):
+    conds = args[0] if args else kwargs.get("condlist")
+    choices = args[1] if len(args) > 1 else kwargs.get("choicelist")
+    default = args[2] if len(args) > 2 else kwargs.get("default", ZERO)
+    if not (isinstance(conds, Tup) and isinstance(choices, Tup) and len(conds.items) == len(choices.items)):
+        return Unknown("np.select")
+    out = default
+    for c, v in reversed(list(zip(conds.items, choices.items))):
+        out = np_where(I, [c, v, out], {}, node)  # the first condition that holds wins
+    return out
+
+
 def np_squeeze(I, args, kwargs, node):
     x = args[0]
     if isinstance(x, Arr):
@@ -1594,9 +1620,13 @@ def np_unique(I, args, kwargs, node):
 def np_sort(I, args, kwargs, node):
     x = args[0]
     if isinstance(x, Arr):
-        if x.ndim == 1 and isinstance(x.val, Expr) and kwargs.get("axis") is None and len(args) == 1:
+        flat = "axis" in kwargs and kwargs["axis"] is None  # np.sort(a, axis=None) sorts the flattened array
+        if (x.ndim == 1 or flat) and isinstance(x.val, Expr) and (flat or "axis" not in kwargs or const_int(kwargs["axis"]) in (-1, 0)) and len(args) == 1:
             # the sorted values are the array gathered through its own ascending order
-            return Arr(x.shape, alg.fn("gather", x.val, alg.fn("permidx", "asc", x.val)), x.dtype, {"sorted": True, "sorted_of": x})
+            n = ONE
+            for d in x.shape:
+                n = n * d
+            return Arr((n,), alg.fn("gather", x.val, alg.fn("permidx", "asc", x.val)), x.dtype, {"sorted": True, "sorted_of": x})
         tag = "sort(%s)@%s:%s" % (x.name or "?", I.cur_mod.name, node.lineno)
         return Arr(x.shape, alg.fn("elem", alg.sym(tag)), x.dtype, {"sorted": True, "sorted_of": x})
     if isinstance(x, Opaque):
@@ -1705,7 +1735,37 @@ def np_concatenate(I, args, kwargs, node):
         g = arrs[1].meta["gen"]
         gen = lambda k, g=g: g(k - ONE)
         return Arr((n,), gen(alg.fn("idx", n, integer=True)), dt, {"gen": gen})
-    return Arr((n,), Unknown("concatenated array"), dt, {})
+    return Arr((n,), Unknown("concatenated array"), dt, {"concat_parts": arrs})
+
+
+def np_accumulate(kind):
+    def h(I, args, kwargs, node):
+        x = args[0]
+        if not (isinstance(x, Arr) and x.ndim == 1):
+            return Unknown("ufunc.accumulate")
+        from interp import psum
+        if kind == "add" and "gen" in x.meta and isinstance(x.val, Expr):
+            return np_cumsum(I, [x], {}, node)
+        parts = x.meta.get("concat_parts")
+        if parts and len(parts) == 2 and dim_is_one(parts[0].shape[0]) and "gen" in parts[1].meta:
+            first = parts[0].meta["elements"][0] if parts[0].meta.get("elements") else parts[0].val
+            g = parts[1].meta["gen"]
+            if isinstance(first, Expr):
+                iv = alg.sym_atom("j#accumulate", integer=True)
+                sign = -ONE if kind == "sub" else ONE
+                # entry k is the first entry (-/+) the sum of the following k entries
+                gen = lambda k, first=first, g=g, iv=iv, sign=sign: first + sign * psum(g(alg.atom_expr(iv)), iv, ZERO, k)
+                return Arr(x.shape, gen(alg.fn("idx", x.shape[0], integer=True)), x.dtype, {"gen": gen})
+        return Unknown("ufunc.accumulate")
+
+    return h
+
+
+def functools_partial(I, args, kwargs, node):
+    f = args[0]
+    if isinstance(f, FuncRef):
+        return FuncRef("partial", "partial(%s)" % f.dotted, bound=(f, list(args[1:]), dict(kwargs)))
+    return Unknown("functools.partial")
 
 
 def np_isin(I, args, kwargs, node):
@@ -1725,6 +1785,9 @@ def np_count_nonzero(I, args, kwargs, node):
         return x.meta["positions_of"].shape[0]  # entries assumed in range, as the membership loop assumes
     if isinstance(x, Arr) and isinstance(x.val, Pred) and kwargs.get("axis") is None:
         return alg.fn("countwhere", x.val.e, x.val.op, integer=True)  # number of entries e with  e op 0
+    if isinstance(x, Arr) and x.dtype == "bool" and isinstance(x.val, bool) and kwargs.get("axis") is None:
+        # the same number that indexing with the mask produces
+        return alg.fn("count", alg.sym("mask:%s" % (x.meta.get("ident") or x.name or "?")), integer=True, pos=True)
     return Unknown("np.count_nonzero")
 
 
@@ -1989,6 +2052,10 @@ EXT = {
     "numpy.real": unary(lambda v: v),
     "numpy.power": np_power,
     "numpy.where": np_where,
+    "numpy.select": np_select,
+    "numpy.subtract.accumulate": np_accumulate("sub"),
+    "numpy.add.accumulate": np_accumulate("add"),
+    "functools.partial": functools_partial,
     "numpy.squeeze": np_squeeze,
     "numpy.unique": np_unique,
     "numpy.sort": np_sort,
